@@ -109,6 +109,26 @@ def fmt(c):
     return "%s %x %x %x" % c
 
 
+def retry_timeouts(binary, args, lines, outs):
+    """The harness watchdog measures wall time, and the machine is shared: a case answered `timeout` is run again in
+    a process of its own with a 20 s limit (at most 16 cases, side by side); only a repeated time-out stands."""
+    env = dict(common.ENV)
+    env["VERIF_FIELD_WATCHDOG_SECS"] = "20"
+    idx = [i for i, o in enumerate(outs) if o.endswith("= timeout")][:16]
+    if not idx:
+        return outs
+
+    def one(i):
+        rc, out, err = common.sh([binary] + args, inp=lines[i] + "\n", env=env, timeout=60)
+        return out.strip().splitlines()[-1] if rc == 0 and out.strip() else outs[i]
+    import concurrent.futures
+    with concurrent.futures.ThreadPoolExecutor(max_workers=16) as ex:
+        for i, o in zip(idx, ex.map(one, idx)):
+            outs[i] = o
+    common.log("C16: %d case(s) timed out under the short watchdog and were re-run alone" % len(idx))
+    return outs
+
+
 # --------------------------------------------------------------------------
 # dispatch: surface operator -> opcode -> modular_arithmetic function, through
 # the real value propagation (harness `field dispatch`), on closed expressions
@@ -371,6 +391,7 @@ def run_dispatch(ctx, HARNESS_BIN, MODEL_BIN):
             (HARNESS_BIN, ["dispatch"], hl), (MODEL_BIN, ["dispatch-loop"], ml),
             (MODEL_BIN, ["dispatch"], ml), (MODEL_BIN, ["dispatch-doc"], ml))]
         impl, loop, bott, doc = [j.result() for j in jobs]
+    impl = retry_timeouts(HARNESS_BIN, ["dispatch"], hl, impl)
     if not (len(impl) == len(loop) == len(bott) == len(doc) == len(cs)):
         raise common.BuildError("dispatch outputs differ in length", "%d %d %d %d %d" % (len(impl), len(loop), len(bott), len(doc), len(cs)))
     disagreements, failing = [], []
@@ -412,11 +433,16 @@ def run(ctx, proofs):
     evaluations = 0
     # (a) exhaustive small fields: mirror vs implementation vs spec
     sweep_args = [str(p) for p in SMALL]
-    rc, impl, err = common.sh([HARNESS_BIN, "sweep"] + sweep_args, timeout=600)
-    if rc != 0:
-        raise common.BuildError("harness field-sweep failed", err[-2000:])
-    rc, model, err = common.sh([MODEL_BIN, "mirror-sweep"] + sweep_args, timeout=600)
-    rc2, spec, err2 = common.sh([MODEL_BIN, "spec-sweep"] + sweep_args, timeout=600)
+    import concurrent.futures
+    with concurrent.futures.ThreadPoolExecutor(max_workers=3) as ex:     # independent runs, side by side
+        j1 = ex.submit(common.sh, [HARNESS_BIN, "sweep"] + sweep_args, timeout=600)
+        j2 = ex.submit(common.sh, [MODEL_BIN, "mirror-sweep"] + sweep_args, timeout=600)
+        j3 = ex.submit(common.sh, [MODEL_BIN, "spec-sweep"] + sweep_args, timeout=600)
+        rc0, impl, err0 = j1.result()
+        rc, model, err = j2.result()
+        rc2, spec, err2 = j3.result()
+    if rc0 != 0:
+        raise common.BuildError("harness field-sweep failed", err0[-2000:])
     if rc != 0 or rc2 != 0:
         raise common.BuildError("model driver sweep failed", (err + err2)[-2000:])
     impl_l, model_l, spec_l = impl.splitlines(), model.splitlines(), spec.splitlines()
@@ -442,10 +468,13 @@ def run(ctx, proofs):
     cs = cases(ctx, primes)
     lines = [fmt(c) for c in cs]
     evaluations += len(lines)
-    impl_l = common.run_lines(HARNESS_BIN, [], lines, shards=common.NPROC)
-    model_l = common.run_lines(MODEL_BIN, ["mirror"], lines, shards=common.NPROC)
     canon_idx = [i for i, c in enumerate(cs) if c[1] < c[3] and c[2] < c[3] and c[0] != "div"]
-    spec_l = common.run_lines(MODEL_BIN, ["spec"], [lines[i] for i in canon_idx], shards=common.NPROC)
+    with concurrent.futures.ThreadPoolExecutor(max_workers=3) as ex:
+        j1 = ex.submit(common.run_lines, HARNESS_BIN, [], lines, shards=common.NPROC)
+        j2 = ex.submit(common.run_lines, MODEL_BIN, ["mirror"], lines, shards=common.NPROC)
+        j3 = ex.submit(common.run_lines, MODEL_BIN, ["spec"], [lines[i] for i in canon_idx], shards=common.NPROC)
+        impl_l, model_l, spec_l = j1.result(), j2.result(), j3.result()
+    impl_l = retry_timeouts(HARNESS_BIN, [], lines, impl_l)
     spec_of = dict(zip(canon_idx, spec_l))
     kinds = {}
     for i, (c, li, lm) in enumerate(zip(cs, impl_l, model_l)):
